@@ -2,7 +2,8 @@
    fi_enc s sits at the documented offset with the documented value (preamble longs, serial version 1, family id 10,
    lg_max_map_size, lg_cur_map_size, flags, number of counters, total weight, offset), the counters follow at 32 + 8 i in
    iterator order, the items after them through the serde (uint64_t: 8 bytes; std::string: u32 length + bytes); a reader written
-   from that description (fi_dec) recovers the content.  The readers accept serial version 1 only (no legacy form).
+   from that description (fi_dec) recovers the content.  The readers accept serial version 1 only; the legacy forms are the empty images of older writers that set only one of the two
+   historical empty-flag bits (C10_fi_legacy_empty_flags).
    Only statements; proofs in FiCodecProofs.v. *)
 From Coq Require Import ZArith NArith List Bool Lia Permutation.
 From DS Require Import Word Murmur3 RunnerLib FiDefs FiRefine FiSerProofs FiCodecDefs FiCodecProofs.
@@ -45,6 +46,29 @@ Theorem C10_fi_documented_reader : forall kind (s : sk) rest, SerOk2 kind s ->
   fi_dec kind (fi_enc kind s ++ rest) = Some (sk_roundtrip item item_eqb (fi_hash kind) s, length (fi_enc kind s)).
 Proof. exact fi_dec_enc. Qed.
 
+(* legacy forms: older writers flagged an empty sketch with ONE of the two historical bits (bit 0 = IS_EMPTY_1, C++; bit 2 =
+   IS_EMPTY_2, Java); the readers take EITHER bit as "empty" and ignore every other flag bit and the two unused bytes *)
+Theorem C10_fi_legacy_empty_flags : forall kind lgmax lgcur flags u6 u7 rest, 3 <= lgcur <= lgmax ->
+  Z.testbit flags 0 = true \/ Z.testbit flags 2 = true ->
+  fi_dec kind ([1; 1; 10; lgmax; lgcur; flags; u6; u7] ++ rest) = Some (sk_new item (zN lgmax) (zN lgcur), 8%nat).
+Proof.
+  intros kind lgmax lgcur flags u6 u7 rest H Hb. cbn [app fi_dec].
+  assert (E : (Z.land flags 5 =? 0) = false).
+  { apply Z.eqb_neq. intros E0. destruct Hb as [Hb|Hb].
+    - assert (T : Z.testbit (Z.land flags 5) 0 = true) by (rewrite Z.land_spec, Hb; reflexivity). rewrite E0 in T. discriminate.
+    - assert (T : Z.testbit (Z.land flags 5) 2 = true) by (rewrite Z.land_spec, Hb; reflexivity). rewrite E0 in T. discriminate. }
+  rewrite E. cbn [negb]. unfold hdr_ok.
+  replace (lgcur <=? lgmax) with true by (symmetry; apply Z.leb_le; lia).
+  replace (3 <=? lgcur) with true by (symmetry; apply Z.leb_le; lia). reflexivity.
+Qed.
+
+(* stray flag bits on a non-empty image are ignored: the verdict and content depend on the flags only through bits 0 and 2 *)
+Theorem C10_fi_other_flag_bits_ignored : forall kind pl sv fam lgmax lgcur flags flags' u6 u7 u6' u7' rest,
+  Z.land flags 5 = Z.land flags' 5 ->
+  fi_dec kind (pl :: sv :: fam :: lgmax :: lgcur :: flags :: u6 :: u7 :: rest) =
+  fi_dec kind (pl :: sv :: fam :: lgmax :: lgcur :: flags' :: u6' :: u7' :: rest).
+Proof. intros. cbn [fi_dec length]. now rewrite H. Qed.
+
 (* only serial version 1 / family 10 / matching preamble size are read *)
 Theorem C10_fi_versions : forall kind pl sv fam lgmax lgcur flags u6 u7 rest s used,
   fi_dec kind (pl :: sv :: fam :: lgmax :: lgcur :: flags :: u6 :: u7 :: rest) = Some (s, used) ->
@@ -64,6 +88,11 @@ Example C10_ex_fields :
   skipn 48 img = [2; 0; 0; 0; 97; 98; 1; 0; 0; 0; 99].
 Proof. vm_compute. repeat split; reflexivity. Qed.
 
+Example C10_ex_legacy :
+  fi_dec 0 [1; 1; 10; 5; 3; 4; 0; 0] = Some (sk_new item 5 3, 8%nat) /\ fi_dec 2 [1; 1; 10; 5; 3; 1; 0; 0] = Some (sk_new item 5 3, 8%nat) /\
+  fi_dec 0 [1; 1; 10; 5; 3; 244; 7; 7] = Some (sk_new item 5 3, 8%nat) /\ fi_dec 0 [4; 1; 10; 5; 3; 4; 0; 0] = None.
+Proof. vm_compute. repeat split; reflexivity. Qed.
+
 Example C10_ex_versions_rejected :
   fi_dec 0 [1; 2; 10; 5; 3; 5; 0; 0] = None /\ fi_dec 0 [1; 1; 11; 5; 3; 5; 0; 0] = None /\
   fi_dec 0 [4; 1; 10; 5; 3; 5; 0; 0] = None /\ fi_dec 0 [1; 1; 10; 5; 6; 5; 0; 0] = None /\ fi_dec 0 [1; 1; 10; 5; 2; 5; 0; 0] = None.
@@ -75,3 +104,5 @@ Print Assumptions C10_fi_little_endian.
 Print Assumptions C10_fi_item_formats.
 Print Assumptions C10_fi_documented_reader.
 Print Assumptions C10_fi_versions.
+Print Assumptions C10_fi_legacy_empty_flags.
+Print Assumptions C10_fi_other_flag_bits_ignored.
